@@ -37,9 +37,11 @@
 (* Corruption.  A layout may be marked bad = "tag" (the tag of the frame   *)
 (* has a value outside the closed set of the codec: the call that can see  *)
 (* it must answer Err, and no message may be produced for that frame) or   *)
-(* bad = "len" (a length field was overwritten: from the call that can see *)
-(* it on, any answer is allowed - the statement only demands that it is an *)
-(* answer, not a panic or a hang).  `at` is the atom holding the field.    *)
+(* bad = "len" (a length field - or any other byte of the frame - was        *)
+(* overwritten: from the call that can see it on, any answer is allowed -   *)
+(* the statement only demands that it is an answer, not a panic or a hang). *)
+(* `at` is the atom holding the field, whose `need` is then the number of   *)
+(* bytes of that atom after which the field is visible to the decoder.      *)
 (***************************************************************************)
 EXTENDS Naturals, Sequences, FiniteSets, TLC, FramingCore
 
